@@ -469,6 +469,11 @@ func checkC12(P *Prog, r *Result) {
 	// own-context-not-shared: the context a callback receives belongs to its node alone: a node context is
 	// released once, deferred or as its last use (C07's release rule restricted to SchemaCtx objects)
 	shareRule(P, r, checkC07, "C07/release", func(o Obligation) bool { return strings.Contains(o.Construct, "SchemaCtx") }, "C12/own-context-not-shared", 10)
+	// the callbacks attached to a node are the ones that run: not replaced through a backing array shared with a
+	// derived schema (C16), and not cut short by a catch flag left on the node's context by a sibling, an
+	// earlier element or an earlier call (C01's child-clean rule)
+	shareRule(P, r, checkC16, "C16/no-shared-backing", nil, "C12/callbacks-not-overwritten", 4)
+	shareRule(P, r, checkC01, "C01/child-clean", nil, "C12/callbacks-not-cut-short", 15)
 }
 
 // errResultGuardsIssue: the error result (last extract) of call c is compared
